@@ -309,6 +309,9 @@ class DictV(Mutable):
         return ('d', tuple((k(a), k(b)) for a, b in self.pairs))
 
 
+_KEY_IN_PROGRESS = set()
+
+
 class Obj(Mutable):
     def __init__(self, cls, attrs=None):
         self.cls = cls              # ClassV
@@ -322,7 +325,14 @@ class Obj(Mutable):
         return '<%s %s>' % (self.cls.name, self.attrs)
 
     def key(self):
-        return ('o', self.cls.name, tuple(sorted((a, k(b)) for a, b in self.attrs.items())))
+        # objects may refer to each other in a circle (a parser and the callbacks bound into its grammar parser)
+        if id(self) in _KEY_IN_PROGRESS:
+            return ('o', self.cls.name, '<itself>')
+        _KEY_IN_PROGRESS.add(id(self))
+        try:
+            return ('o', self.cls.name, tuple(sorted((a, k(b)) for a, b in self.attrs.items())))
+        finally:
+            _KEY_IN_PROGRESS.discard(id(self))
 
 
 class Bound(V):
@@ -1259,6 +1269,26 @@ class Interp(object):
             if d in ('typing.NamedTuple', 'NamedTuple') or (isinstance(b, ast.Name) and b.id == 'NamedTuple') \
                     or (isinstance(b, ast.Attribute) and b.attr == 'NamedTuple'):
                 kind = 'namedtuple'
+            # class Listener(namedtuple('Listener', ['fn', 'ctx'])): a documented subclass of the plain record
+            if isinstance(b, ast.Call) and (src(b.func).split('.')[-1] == 'namedtuple') and len(b.args) >= 2 and not node.decorator_list:
+                try:
+                    names = ast.literal_eval(b.args[1])
+                except (ValueError, SyntaxError):
+                    names = None
+                if isinstance(names, str):
+                    names = names.replace(',', ' ').split()
+                if names and all(isinstance(x, str) for x in names) and \
+                        not any(isinstance(n_, ast.FunctionDef) and n_.name in ('__new__', '__init__') for n_ in node.body):
+                    dflts = {}
+                    for kw_ in b.keywords:
+                        if kw_.arg == 'defaults':
+                            try:
+                                dv = list(kw_.value.elts)
+                            except AttributeError:
+                                return None
+                            for nm_, d_ in zip(names[len(names) - len(dv):], dv):
+                                dflts[nm_] = d_
+                    return ('namedtuple', [(nm_, dflts.get(nm_)) for nm_ in names])
         for dec in node.decorator_list:
             f = dec.func if isinstance(dec, ast.Call) else dec
             if (isinstance(f, ast.Name) and f.id == 'dataclass') or (isinstance(f, ast.Attribute) and f.attr == 'dataclass'):
@@ -1325,7 +1355,15 @@ class Interp(object):
                 cur.items.extend(new)       # in place
                 return
             self.assign(s.target, absmodels.binop(self, s.op, cur, v), fr)
+        elif isinstance(s, (ast.While, ast.For)) and getattr(self, 'loop_cut', None) is not None and self._in_function(fr, self.loop_cut):
+            # reachability probe: everything from the first loop of the probed function on counts as reachable, the trace ends here
+            for n_ in ast.walk(self.loop_cut):
+                if isinstance(n_, ast.Return) and n_.lineno >= s.lineno and self.trace_returns is not None:
+                    self.trace_returns.add(id(n_))
+            raise Returned(Top('cut at a loop'))
         elif isinstance(s, ast.Return):
+            if getattr(self, 'trace_returns', None) is not None:
+                self.trace_returns.add(id(s))
             raise Returned(self.expr(s.value, fr) if s.value is not None else Const(None))
         elif isinstance(s, ast.Raise):
             if s.exc is None:
@@ -1502,10 +1540,51 @@ class Interp(object):
                     self.block(case.body, fr)
                     break
         elif isinstance(s, ast.With):
-            self.imprecise('with statement')
-            self.block(s.body, fr)
+            # locks guard nothing the interpreter can see (one thread); an object with __enter__/__exit__ runs them around the body
+            mgrs = []
+            for item in s.items:
+                v = self.expr(item.context_expr, fr)
+                if isinstance(v, Builtin) and v.name == 'lock':
+                    if item.optional_vars is not None:
+                        self.assign(item.optional_vars, Const(True), fr)
+                    continue
+                ent = self.get_method(v, '__enter__') if isinstance(v, Obj) else None
+                ext = self.get_method(v, '__exit__') if isinstance(v, Obj) else None
+                if ent is not None and ext is not None:
+                    r_ = self.call(ent, [])
+                    if item.optional_vars is not None:
+                        self.assign(item.optional_vars, r_, fr)
+                    mgrs.append(ext)
+                    continue
+                self.imprecise('with statement')
+                if item.optional_vars is not None:
+                    self.assign(item.optional_vars, v, fr)
+            try:
+                self.block(s.body, fr)
+            except Raised as r:
+                swallowed = False
+                for ext in reversed(mgrs):
+                    out_ = self.call(ext, [Const(None), r.value, Const(None)])
+                    if self.truth(out_, '__exit__ swallows the exception'):
+                        swallowed = True
+                        break
+                if not swallowed:
+                    raise
+            except BaseException:
+                for ext in reversed(mgrs):
+                    self.call(ext, [Const(None), Const(None), Const(None)])
+                raise
+            else:
+                for ext in reversed(mgrs):
+                    self.call(ext, [Const(None), Const(None), Const(None)])
         else:
             raise Unmodelled('statement %s' % type(s).__name__)
+
+    def _in_function(self, fr, node):
+        f_ = fr
+        while f_ is not None and getattr(f_, 'func_node', None) is None:
+            f_ = f_.parent
+        return f_ is not None and getattr(f_, 'func_node', None) is node
 
     def select_handler(self, handlers, exc, fr):
         for h in handlers:
@@ -2071,6 +2150,10 @@ class Interp(object):
             args, kwargs = self._args(e, fr)
             if absmodels.is_dt_record(base) and e.func.attr == 'replace' and not args:
                 return absmodels.dt_record_replace(self, base, kwargs)
+            if e.func.attr == '__new__' and args and isinstance(args[0], ClassV) and args[0].module is not None and \
+                    (isinstance(base, (ClassV, SuperV)) or (isinstance(base, Builtin) and base.name == 'object')) and \
+                    self.model.lookup_method(args[0].module, args[0].node, '__new__') is None:
+                return Obj(args[0], {})     # an instance on which no __init__ has run
             if isinstance(base, (ModuleV, Obj, ClassV, TypeV, Builtin, SuperV, DispatchV)) or (isinstance(base, Func) and e.func.attr in base.attrs):
                 fv = self.getattr(base, e.func.attr, e.func)
                 return self.call(fv, args, kwargs)
